@@ -11,7 +11,7 @@ from pyvc.values import VReal, xr_eq, xr_lt, xr_le
 from pyvc.state import alloc_list
 
 MM = "cobra/core/model.py"
-REG.fields.update({"has_reactants": "bool", "has_products": "bool"})
+REG.fields.update({"has_reactants": "bool", "has_products": "bool", "n_reactants": "int", "n_products": "int"})
 RX = ("reaction", TRef("Reaction"))
 
 
@@ -23,7 +23,8 @@ def _list_result(flagname):
     def build(eng, st, E):
         st, l = alloc_list(st, "ref:Metabolite", base=flagname)
         n = st.objs[l.oid]["len"]
-        return st.assume((n > 0) == eng.heap_arr(st, flagname)[E["self"].t]), l
+        cnt = eng.heap_arr(st, "n_" + flagname[4:])[E["self"].t]        # ghost count behind the ghost flag
+        return st.assume((n > 0) == eng.heap_arr(st, flagname)[E["self"].t], n == cnt, n >= 0), l
     return build
 
 
@@ -144,3 +145,85 @@ def lemmas():
     out.append(Obl("C18/lemma/unlisted-exchange-bounds-only-tightened", dom + [xr_le(lb, ub)],
                    z3.And(xr_le(lb, lb2), xr_le(ub2, ub)), "lemma"))
     return out
+
+
+# ---------------------------------------------------------------- minimal_medium.add_linear_obj (the LP minimal-medium objective)
+# Documented: "the objective is to minimise the total import flux".  Proved: afterwards the objective has coefficient 1 on the IMPORT
+# variable of every exchange (the reverse variable of an exchange written `met -->`, i.e. with a reactant; the forward variable of one
+# written `--> met`), every other coefficient is as before, and the direction is "min".
+from . import c04_status as C4  # noqa
+from . import c05_fva as C5  # noqa
+MMM = "cobra/medium/minimal_medium.py"
+
+
+def _alo_model_t():
+    return TObj("Model", {"_solver": C4.SOLVER_T()})
+
+
+def _exchanges(st):
+    l = st.ghost["exchanges"]
+    rec = st.objs[l.oid]
+    return rec["len"], rec["elem"]
+
+
+def _fbt_result(eng, st, E):
+    st, l = alloc_list(st, "ref:Reaction", base="exch")
+    n, e = st.objs[l.oid]["len"], st.objs[l.oid]["elem"]
+    j, j2 = qv("ej"), qv("ej2")
+    mo = eng.heap_arr(st, "_model")
+    nre = eng.heap_arr(st, "n_reactants")
+    st = st.assume(n >= 0,
+                   FA([j], z3.Implies(z3.And(0 <= j, j < n), z3.And(z3.Select(e, j) != NULL, mo[z3.Select(e, j)] != NULL,
+                                                                    C1.vars_distinct(z3.Select(e, j)),
+                                                                    nre[z3.Select(e, j)] <= 1)),      # one metabolite only
+                      patterns=[z3.Select(e, j)]))
+    return st.setghost("exchanges", l), l
+
+
+REG.add(Contract("cobra/medium/boundary_types.py", "find_boundary_types", "C18", [("model", _alo_model_t()), ("boundary_type", TConc("exchange"))],
+                 [Case("any")], assumed=True, key="find_boundary_types", result=_fbt_result,
+                 note="find_boundary_types(model, 'exchange'): a list of reactions of the model (each with its two distinct solver "
+                      "variables) that have a single metabolite; WHICH reactions count as exchanges is the heuristic of boundary_types.py, outside this contract"))
+
+def _import_var(E, st, r):
+    return z3.If(flag(E, st, "has_reactants", r), C1.rev(r), C1.fwd(r))
+
+
+def _alo_inv(E, Lc):
+    n, e = _exchanges(Lc.st)
+    d = Lc.st.objs[Lc.var("coefs").oid]
+    x, j = qv("ax", Ref), qv("aj")
+    if d.get("lazy"):
+        return z3.And(Lc.i == 0, Lc.n == n)
+    return z3.And(Lc.n == n,
+                  FA([j], z3.Implies(z3.And(0 <= j, j < Lc.i), z3.And(z3.Select(d["dom"], _import_var(E, Lc.st, e[j])),
+                                                                      z3.Select(d["val"], _import_var(E, Lc.st, e[j])) == 1)),
+                     patterns=[e[j]]),
+                  FA([x], z3.Implies(z3.Select(d["dom"], x),
+                                     z3.Exists([j], z3.And(0 <= j, j < Lc.i, _import_var(E, Lc.st, e[j]) == x))),
+                     patterns=[z3.Select(d["dom"], x)]))
+
+
+def _alo_post(E):
+    n, e = _exchanges(E.s1)
+    o0, o1 = C5.objc(E.s0), C5.objc(E.s1)
+    x, j = qv("px", Ref), qv("pj")
+    is_import = z3.Exists([j], z3.And(0 <= j, j < n, _import_var(E, E.s0, e[j]) == x))
+    obj = E.s1.objs[C4.solver_of(E.s1, E["model"]).oid]["attr:objective"]
+    direction = E.s1.objs[obj.oid]["attr:direction"]
+    c = E.eng.eq(E.s1, direction, VConc("min"))
+    return z3.And(FA([j], z3.Implies(z3.And(0 <= j, j < n), o1[_import_var(E, E.s0, e[j])] == 1), patterns=[e[j]]),
+                  FA([x], z3.Implies(z3.Not(is_import), o1[x] == o0[x]), patterns=[o1[x]]),
+                  z3.BoolVal(c) if isinstance(c, bool) else c)
+
+
+def _alo_mod(E):
+    sol = C4.solver_of(E.s0, E["model"])
+    obj = E.s0.objs[sol.oid]["attr:objective"]
+    return [("ghost", "objc", lambda st: fresh("objc", C5.CoefMap)), ("ghost", "exchanges", lambda st: None),
+            ("attr", obj, "direction", lambda st: (st, VStr(fresh("dir", Id))))]
+
+
+REG.add(Contract(MMM, "add_linear_obj", "C18", [("model", _alo_model_t())], [Case("any", ensures=_alo_post)],
+                 key="add_linear_obj", modifies=_alo_mod,
+                 loops={0: LoopSpec(_alo_inv, lambda E, Lc: [("dict", Lc.var("coefs"), "ref:Variable", "int")])}))
